@@ -290,6 +290,34 @@ func ruleWalSyncBeforeAck(c *Ctx, r *Reporter) {
 				fsync = ins
 			}
 		})
+		// the flush+sync pair may live in a same-receiver helper (flushAndSyncForClose()): the pair is then checked inside
+		// the helper, and the helper's call stands for the sync in this function
+		inner := fn
+		var helperCall ssa.Instruction
+		if flush == nil || fsync == nil {
+			AllInstrs(fn, false, func(_ *ssa.Function, ins ssa.Instruction) {
+				call, ok := ins.(*ssa.Call)
+				if !ok {
+					return
+				}
+				h := call.Call.StaticCallee()
+				if h == nil || h == fn || len(h.Blocks) == 0 || recvTypeName(h) != recvTypeName(fn) {
+					return
+				}
+				var f2, s2 ssa.Instruction
+				AllInstrs(h, false, func(_ *ssa.Function, x ssa.Instruction) {
+					if isMethodCallOnField(x, "(*bufio.Writer).Flush", a.writer) {
+						f2 = x
+					}
+					if isMethodCallOnField(x, "(*os.File).Sync", a.file) {
+						s2 = x
+					}
+				})
+				if f2 != nil && s2 != nil {
+					inner, flush, fsync, helperCall = h, f2, s2, ins
+				}
+			})
+		}
 		if flush == nil || fsync == nil {
 			r.Bad(name+":flush-then-sync", c.FnPos(fn), "does not both flush the buffer and fsync the file")
 			continue
@@ -298,8 +326,14 @@ func ruleWalSyncBeforeAck(c *Ctx, r *Reporter) {
 		good := Dominates(flush, fsync) && GuardedBy(fsync.Block(), flushOK)
 		r.Check(good, name+":flush-then-sync", c.InsPos(fsync), "writer.Flush dominates file.Sync and Sync runs only if Flush succeeded", "file.Sync is not preceded by a successful writer.Flush: buffered records would not reach the disk before the sync")
 		okEx := true
+		if helperCall != nil {
+			if bad, path := ErrorDropped(c, fn, helperCall); bad != nil {
+				okEx = false
+				r.Bad(name+":sync-error-checked", c.InsPos(bad), "a success exit is reachable although the flush-and-sync helper returned an error", c.PathString(path)...)
+			}
+		}
 		for _, ci := range []ssa.Instruction{flush, fsync} {
-			if bad, path := ErrorDropped(c, fn, ci); bad != nil {
+			if bad, path := ErrorDropped(c, inner, ci); bad != nil {
 				okEx = false
 				r.Bad(name+":sync-error-checked", c.InsPos(bad), "a success exit is reachable although Flush/Sync returned an error", c.PathString(path)...)
 			}
@@ -315,7 +349,11 @@ func ruleWalSyncBeforeAck(c *Ctx, r *Reporter) {
 			if st, ok := ins.(*ssa.Store); ok && fieldVarOf(st.Addr) == a.status {
 				isStore = true
 			}
-			if isStore && !Dominates(fsync, ins) {
+			after := fsync
+			if helperCall != nil {
+				after = helperCall
+			}
+			if isStore && !Dominates(after, ins) {
 				okSt = false
 				r.Bad(name+":status-after-sync", c.InsPos(ins), "the WAL status is changed before the buffer was flushed and synced (a later sync would be refused and buffered records lost)")
 			}
